@@ -4,7 +4,10 @@ EXTENDS MemberSD, Json
 CONSTANT Depth
 \* prefer to deliver pending election callbacks, let time pass, and declare stability when it is reached
 Useful(l) == /\ (quiet >= Settle /\ Informed /\ ~announced /\ Up # {}) => l.a = "Stable"
-             /\ (l.a \in {"Start", "Die"} => (Len(hist) % 3 = 0 \/ quiet >= Settle))
+             \* build a group of three, let it become stable, then one change at a time (mostly): random walks otherwise
+             \* rarely stay quiet for Settle units
+             /\ (l.a = "Start" => (Cardinality(Up) < 3 \/ quiet >= Settle \/ Len(hist) % 7 = 0))
+             /\ (l.a = "Die" => (Cardinality(Up) >= 3 /\ (quiet >= Settle \/ Len(hist) % 11 = 0)))
 SimNext == \E l \in Labels : Useful(l) /\ Step(l) /\ mon' = MonFold(mon, emitv') /\ marks' = marks
                              /\ hist' = Append(hist, [l |-> l, evs |-> emitv', post |-> Post'])
 SimSpec == Init /\ [][SimNext]_vars
